@@ -683,7 +683,7 @@ def fixed_table_layout(box):
                 else:
                     width -= column_widths[j]
             if columns_without_width:
-                width_per_column = width / len(columns_without_width)
+                width_per_column = max(width, 0) / len(columns_without_width)
                 for j in columns_without_width:
                     column_widths[j] = width_per_column
         i += cell.colspan
